@@ -43,6 +43,7 @@ GRV_CMD(segapi) {
             const vj::Value &b = *beh[bi % beh.size()];
             const int N = int(b["n"].num());
             set_case("segapi source=%ld font=%s dir=%d ppm=%g behaviour=%zu", nseg, font.c_str(), dir, ppm, bi % beh.size());
+            GRV_WATCHDOG;
             gr_segment *seg = gr_make_seg(gf, face, 0, 0, gr_utf8, text.data(), nch, dir);
             if (!seg) { ++skipped; continue; }
             std::vector<const gr_slot *> slots;
